@@ -166,8 +166,9 @@ impl CsdV1 {
 
     /// Returns the card capacity in 512-byte blocks
     pub fn card_capacity_blocks(&self) -> u32 {
-        let multiplier = self.device_size_multiplier() + self.read_block_length() - 7;
-        (self.device_size() + 1) << multiplier
+        // Go via the size in bytes, so that odd register contents (e.g. a
+        // block length below 512 bytes) can't underflow the shift count.
+        (self.card_capacity_bytes() / 512) as u32
     }
 }
 
@@ -209,7 +210,8 @@ impl CsdV2 {
 
     /// Returns the card capacity in 512-byte blocks
     pub fn card_capacity_blocks(&self) -> u32 {
-        (self.device_size() + 1) * 1024
+        // The largest device size doesn't fit in 32 bits worth of blocks
+        (self.device_size() + 1).saturating_mul(1024)
     }
 }
 
